@@ -362,6 +362,10 @@ pub fn run(thorough: bool) -> i32 {
     let mut per_cfg = Vec::new();
     let mut wit: BTreeMap<String, u64> = BTreeMap::new();
     for cfg in configs() {
+        // thorough: the dimensions added later (FDT carousel, target acquisition, FEC-coded FDT sessions) are searched
+        // two levels less deep than the core configurations (the whole tier stays within minutes)
+        let later = cfg.fdt_carousel != 0 || cfg.sess_real_raptor || cfg.sess_rs || cfg.catalog_kind >= 4;
+        let depth = if thorough && later { depth - 2 } else { depth };
         let (st, found) = bfs(|| make(&cfg), depth, cap);
         // determinism of the merge: two further runs at a smaller depth must give the same counts
         if per_cfg.is_empty() {
@@ -391,6 +395,7 @@ pub fn run(thorough: bool) -> i32 {
     rep.cov("distinct_nontrivial", states);
     rep.cov("explanation", "explicit-state BFS whose transition function is the real Sender (history replayed into a fresh Sender per transition); states merged on the canonicalised {:#?} of the whole Sender + monitor state + virtual time; every transition is an implementation step, so every explored path is an implementation trace");
     rep.cov("depth_bound", depth as u64);
+    rep.cov("depth_bound_later_dimensions", if thorough { depth as u64 - 2 } else { depth as u64 });
     rep.cov("per_config", json!(per_cfg));
     rep.cov("exhaustive", per_cfg.iter().all(|c| c["capped"] == false));
     for w in ["object_packet_between_two_fdt_instances", "add_while_other_object_mid_transfer", "automatic_publication", "state_inside_fdt_instance"] {
